@@ -20,15 +20,38 @@ Record probe := PR {
   p_se : list (Z * N);               (* SortedIndex.entries in index order *)
   p_sr : list (N * Z);
   p_sd : nat;
-  p_lg : list (Z * list N);          (* LookupIndex.Get(nil, v) for every v *)
-  p_sg : list (Z * list N);
   p_txs : list txp
 }.
 Record iout := IOut { io_e : N; io_qi : option rq; io_qs : option rq; io_g : option (list N); io_p : probe }.
-Record case_t := CaseT {
-  c_mode1 : bool; c_seed : list row; c_avals : list Z; c_bvals : list Z;
-  c_p0 : probe; c_steps : list (op * iout)
+
+(* the case file carries each probe as a difference to the previous one (None = unchanged);
+   [expand] rebuilds the full probes before anything is checked *)
+Record pdelta := PD {
+  pd_rows : option (list row); pd_lf : option (list (Z * list N)); pd_lr : option (list (N * Z));
+  pd_ld : nat; pd_se : option (list (Z * N)); pd_sr : option (list (N * Z)); pd_sd : nat;
+  pd_txs : list (nat * option txp)
 }.
+Record ioutd := IOutD { iod_e : N; iod_qi : option rq; iod_qs : option rq; iod_g : option (list N);
+                        iod_p : option pdelta }.
+Definition find_tx (t : nat) (l : list txp) : txp :=
+  default (TxP t [] [] []) (List.find (fun x => Nat.eqb (tp_t x) t) l).
+Definition patch (prev : probe) (d : pdelta) : probe :=
+  PR (default (p_rows prev) (pd_rows d)) (default (p_lf prev) (pd_lf d)) (default (p_lr prev) (pd_lr d))
+     (pd_ld d) (default (p_se prev) (pd_se d)) (default (p_sr prev) (pd_sr d)) (pd_sd d)
+     (map (fun td => match td.2 with Some x => x | None => find_tx td.1 (p_txs prev) end) (pd_txs d)).
+Fixpoint expand (prev : probe) (tr : list (op * ioutd)) : list (op * iout) :=
+  match tr with
+  | [] => []
+  | (o, i) :: tl =>
+      let p := match iod_p i with Some d => patch prev d | None => prev end in
+      (o, IOut (iod_e i) (iod_qi i) (iod_qs i) (iod_g i) p) :: expand p tl
+  end.
+
+Record case_t := CaseT {
+  c_mode1 : bool; c_dedup : bool; c_seed : list row; c_avals : list Z; c_bvals : list Z;
+  c_p0 : probe; c_dsteps : list (op * ioutd)
+}.
+Definition c_steps (c : case_t) : list (op * iout) := expand (c_p0 c) (c_dsteps c).
 
 (* ---- canonical forms ---- *)
 Definition sortZ {A} (l : list (Z * A)) : list (Z * A) := isort (fun a b => Z.leb a.1 b.1) l.
@@ -43,11 +66,11 @@ Fixpoint sorted_by_val (l : list (Z * N)) : bool :=
 
 Definition gets_l (s : st) (t : option nat) (vs : list Z) : list (Z * list N) :=
   map (fun v => (v, sort_keys (match t with
-                                | None => l_get_committed [v] (li s)
+                                | None => l_get_committed true [v] (li s)
                                 | Some t => idx_get s t IA [v] end))) vs.
 Definition gets_s (s : st) (t : option nat) (vs : list Z) : list (Z * list N) :=
   map (fun v => (v, sort_keys (match t with
-                                | None => s_get_committed [v] (si s)
+                                | None => s_get_committed true [v] (si s)
                                 | Some t => idx_get s t IB [v] end))) vs.
 
 Definition open_ids (s : st) : list nat := isort Nat.leb (map fst (map_to_list (txs s))).
@@ -60,7 +83,6 @@ Definition model_probe (s : st) (av bv : list Z) : probe :=
      (s_ents (si s))
      (sortNk (map_to_list (s_rev (si s))))
      (size (sov s))
-     (gets_l s None av) (gets_s s None bv)
      (map (fun t => TxP t (sorted_rows (view s t)) (gets_l s (Some t) av) (gets_s s (Some t) bv))
           (open_ids s)).
 
@@ -80,12 +102,11 @@ Definition probe_eqb (m i : probe) : bool :=
   bool_decide (p_lr m = p_lr i) && Nat.eqb (p_ld m) (p_ld i) &&
   bool_decide (sort_ents (p_se m) = sort_ents (p_se i)) && sorted_by_val (p_se i) &&
   bool_decide (p_sr m = p_sr i) && Nat.eqb (p_sd m) (p_sd i) &&
-  bool_decide (p_lg m = p_lg i) && bool_decide (p_sg m = p_sg i) &&
   list_eqb txp_eqb (p_txs m) (p_txs i).
 
 (* adopt the implementation's order inside equal values (only called when probe_eqb holds) *)
 Definition resync (s : st) (i : probe) : st :=
-  St (rows s) (li s) (SIdx (p_se i) (s_rev (si s))) (lov s) (sov s) (txs s) (mode1 s).
+  St (rows s) (li s) (SIdx (p_se i) (s_rev (si s))) (lov s) (sov s) (txs s) (mode1 s) (dedup s).
 
 Definition rq_matches (q : qout) (r : rq) : bool :=
   N.eqb (q_err q) (rq_e r) && bool_decide (sort_rows (q_rows q) = rq_rows r) &&
@@ -122,7 +143,7 @@ Fixpoint steps_match (s : st) (av bv : list Z) (tr : list (op * iout)) : bool :=
   end.
 
 Definition mismatch (c : case_t) : bool :=
-  let s0 := init (c_mode1 c) (c_seed c) in
+  let s0 := init (c_mode1 c) (c_dedup c) (c_seed c) in
   negb (probe_eqb (model_probe s0 (c_avals c) (c_bvals c)) (c_p0 c) &&
         steps_match (resync s0 (c_p0 c)) (c_avals c) (c_bvals c) (c_steps c)).
 
@@ -152,8 +173,6 @@ Definition index_exact (m : table) (p : probe) (nopen : nat) : bool :=
    without transaction sees committed state only *)
 Definition probe_ok (s : sst) (av bv : list Z) (p : probe) : bool :=
   bool_decide (p_rows p = sorted_rows (sp_rows s)) &&
-  bool_decide (p_lg p = gets_spec IA (sp_rows s) av) &&
-  bool_decide (p_sg p = gets_spec IB (sp_rows s) bv) &&
   index_exact (sp_rows s) p (length (sp_open_ids s)) &&
   list_eqb (fun t (x : txp) =>
               Nat.eqb t (tp_t x) &&
@@ -256,7 +275,7 @@ Fixpoint model_trace (s : st) (av bv : list Z) (tr : list (op * iout)) : list (o
       (out, model_probe s' av bv) :: model_trace (resync s' (io_p i)) av bv tl
   end.
 Definition model_dump (c : case_t) : list (out * probe) :=
-  model_trace (resync (init (c_mode1 c) (c_seed c)) (c_p0 c)) (c_avals c) (c_bvals c) (c_steps c).
+  model_trace (resync (init (c_mode1 c) (c_dedup c) (c_seed c)) (c_p0 c)) (c_avals c) (c_bvals c) (c_steps c).
 (* index of the first step whose output or probe differs (None: the initial probe differs / all agree) *)
 Fixpoint first_diff (s : st) (av bv : list Z) (tr : list (op * iout)) (n : nat) : option nat :=
   match tr with
@@ -267,4 +286,4 @@ Fixpoint first_diff (s : st) (av bv : list Z) (tr : list (op * iout)) (n : nat) 
       then first_diff (resync s' (io_p i)) av bv tl (S n) else Some n
   end.
 Definition where_diff (c : case_t) : option nat :=
-  first_diff (resync (init (c_mode1 c) (c_seed c)) (c_p0 c)) (c_avals c) (c_bvals c) (c_steps c) O.
+  first_diff (resync (init (c_mode1 c) (c_dedup c) (c_seed c)) (c_p0 c)) (c_avals c) (c_bvals c) (c_steps c) O.
